@@ -592,6 +592,20 @@ def _is_select_expr(ctx: Ctx, f: FunctionInfo, p: Path, v: ast.expr | None, good
     return False
 
 
+def _tests_chain(pat: ast.pattern) -> bool:
+    """`BinaryOperationRelation(operation=Chain())`: both are class patterns (a bare `Chain` would be a capture that
+    matches every operation and merely binds a local of that name)."""
+    if not (isinstance(pat, ast.MatchClass) and (dotted(pat.cls) or "").split(".")[-1] == "BinaryOperationRelation" and not pat.patterns):
+        return False
+    subs = dict(zip(pat.kwd_attrs, pat.kwd_patterns))
+    if set(subs) != {"operation"}:
+        return False
+    op = subs["operation"]
+    while isinstance(op, ast.MatchAs) and op.pattern is not None:
+        op = op.pattern
+    return isinstance(op, ast.MatchClass) and (dotted(op.cls) or "").split(".")[-1] == "Chain" and not op.patterns and not op.kwd_patterns
+
+
 def r17_conform(ctx: Ctx, rules: tuple[str, str, str] = ("R17.1", "R17.2", "R17.3")) -> None:
     run, m = ctx.run, ctx.m
     r1, r2, r3 = rules
@@ -698,7 +712,7 @@ def r17_conform(ctx: Ctx, rules: tuple[str, str, str] = ("R17.1", "R17.2", "R17.
     for n in ast.walk(ask.node):
         if isinstance(n, ast.Match) and src(n.subject) == "skip_to":
             for case in n.cases:
-                if "Chain" in src(case.pattern) and "BinaryOperationRelation" in src(case.pattern) and any(a in case.body for a in comp_true):
+                if _tests_chain(case.pattern) and case.guard is None and any(a in case.body for a in comp_true):
                     ok = len(comp_true) == 1
     default_false = any(isinstance(n, ast.Assign) and any(src(t) == comp_v for t in n.targets) and isinstance(n.value, ast.Constant) and n.value.value is False for n in ast.walk(ask.node))
     if not (ok and default_false):
